@@ -35,6 +35,7 @@ def run(R):
     for l in rep.bad[:3]:
         R.proof_problems.append("runner could not parse: " + l[:200])
     tc.count_cases(R, rep, text)
+    tc.oracle_selftest(R, exe, text)
     R.coverage["rule"] = ("one evaluation = one generated operation history (10..60 ops of ins/rem/clr/sets/uns over a universe of nested and "
                           "sibling prefixes of depth 0..7 sharing a spine, names shorter and longer than m) run on BOTH FIB implementations; "
                           "after every op every universe name is looked up (next hops, strategy), both listings and all nodes/entries are dumped; "
